@@ -342,6 +342,8 @@ int main(int argc, char** argv){
             case 2: return run_exec_tsm<1,false>(c);
             case 4: return run_exec_tsm<2,false>(c);
             case 6: return run_exec_tsm<3,false>(c);
+            case 3: return run_exec_tsm<1,true>(c);
+            case 5: return run_exec_tsm<2,true>(c);
             case 7: return run_exec_tsm<3,true>(c);
             case 8: return run_exec_tsm<4,false>(c);
             }
